@@ -184,6 +184,21 @@ pub fn precise_diff<'py>(
     dt1: &Bound<'py, PyAny>,
     dt2: &Bound<'py, PyAny>,
 ) -> PyResult<PreciseDiff> {
+    if dt1.eq(dt2)? {
+        // Same as the pure-Python helper: equal values are zero apart,
+        // including in calendar days when seen from two timezones
+        return Ok(PreciseDiff {
+            years: 0,
+            months: 0,
+            days: 0,
+            hours: 0,
+            minutes: 0,
+            seconds: 0,
+            microseconds: 0,
+            total_days: 0,
+        });
+    }
+
     let mut sign = 1;
     let dt1_tz = get_tz_name(dt1)?;
     let dt2_tz = get_tz_name(dt2)?;
